@@ -73,6 +73,8 @@ def main(tier):
         for aq in (None, "qint8", "qfloat8"):
             for frozen in (False, True):
                 cases.append({"kind": "purity", "seed": ck.seed, "weights": wq, "activations": aq, "frozen": frozen})
+                if aq is not None and wq in ("qint8", "qint4"):
+                    cases.append({"kind": "purity", "seed": ck.seed, "weights": wq, "activations": aq, "frozen": frozen, "inplace": True})
     cases += [{"kind": "ext", "seed": 0, "raise": False}, {"kind": "ext", "seed": 0, "raise": True}]
     res = ck.impl("scoped", {"cases": cases}, timeout=1800)
     if isinstance(res, dict):
@@ -96,8 +98,8 @@ def main(tier):
                 ck.violation("a model created and run after the contexts were left is modified by a forward pass", {"program": c["prog"]})
             progs.append((c, r))
         elif c["kind"] == "purity":
-            ck.case(("purity", c["weights"], c["activations"], c["frozen"]), nontrivial=True)
-            cfg = {k: c[k] for k in ("weights", "activations", "frozen")}
+            ck.case(("purity", c["weights"], c["activations"], c["frozen"], c.get("inplace", False)), nontrivial=True)
+            cfg = {k: c.get(k) for k in ("weights", "activations", "frozen", "inplace")}
             if r["forward_changes_state"]:
                 ck.violation("running a quantized model outside a Calibration context changed a parameter, buffer, scale or qtype", {"config": cfg})
             if r["input_changed"] or r["library_inputs_changed"]:
